@@ -364,7 +364,26 @@ def r8_typepath_ctor(chk):
         chk.inconc("R8", f"only {n} evaluable leaves of TypePath::from")
 
 
+def r9_validation_partition(chk):
+    """Requested impl set = instruction set only if validation does not reject an instruction because of an instruction of ANOTHER
+    conversion: its per-counterpart rules must be dispatched per (kind, fallible), like data_type_impl (imported from C15.R1)."""
+    from ..core import Check
+    from . import c15
+    sub = Check("C15", chk.repo, chk.tier)
+    sub.guard("R1", lambda: c15.r1(sub))
+    chk.rule("R9", "validation applies the one-instruction-per-counterpart rule within one (kind, fallible) conversion, never across conversions", floor=12)
+    for r_, why in sub.inconclusive:
+        chk.inconc("R9", why)
+    for i in sub.instances:
+        if i.rule == "R1" and i.key.startswith("validate_struct_attrs"):
+            if i.ok:
+                chk.ok("R9", "validation:" + i.key, i.file, i.line)
+            else:
+                chk.bad("R9", "validation:" + i.key, i.file, i.line, i.what, i.expected, i.found)
+
+
 def run(chk):
+    chk.guard("R9", lambda: r9_validation_partition(chk))
     chk.guard("R8", lambda: r8_typepath_ctor(chk))
     chk.guard("R1", lambda: r1_names(chk))
     chk.guard("R3", lambda: r3_filter(chk))
